@@ -34,7 +34,7 @@ DEFAULT_PROFILE = {
     "p_sstream": 0.25, "p_cstream": 0.15, "p_bidi": 0.15, "p_lro": 0.3, "p_raw_op": 0.08,
     "p_http": 0.9, "p_signature": 0.7, "p_routing": 0.25, "p_keyword_rpc": 0.08,
     "p_service_config": 0.8, "p_yaml": 0.3, "p_reserved_field": 0.08, "p_two_services": 0.25,
-    "p_foreign_request": 0.1, "p_shuffle_numbers": 0.2, "p_additional_binding": 0.25, "p_param_name_collision": 0.0, "p_stream_of_empty": 0.06, "p_stream_routing": 0.0, "p_routing_name_clash": 0.0, "p_required_optional": 0.0,
+    "p_foreign_request": 0.1, "p_shuffle_numbers": 0.2, "p_additional_binding": 0.25, "p_param_name_collision": 0.0, "p_stream_of_empty": 0.06, "p_stream_routing": 0.0, "p_routing_name_clash": 0.0, "p_required_optional": 0.0, "p_body_only_in_additional": 0.0,
     "p_auto_populate": 0.0, "p_google_api_ns": 0.0, "sig_variants": False, "p_multi_var_path": 0.0, "mixin_variants": False, "p_add_iam_methods": 0.0, "p_equal_sort_keys": 0.0, "p_reserved_path_var": 0.0, "p_local_empty": 0.0, "p_same_method_two_services": 0.0, "p_required_enum": 0.0, "p_custom_http_pattern": 0.0, "p_real_api": 0.04, "p_nested_name_ties": 0.15, "p_double_star_path": 0.0, "p_value_fields": 0.0, "p_mixed_foreign_io": 0.0, "common_file_names": ["resources"],
     "transports": ["grpc", "grpc+rest", "grpc+rest", "rest"],
     "p_numeric_enums": 0.3,
@@ -363,6 +363,9 @@ def _add_get(cx, pkg, main, svc, noun, res, suffix=""):
         m["http"] = {"verb": "get", "path": f"{_path_prefix(cx)}/{{name={_wild(res['pattern'])}}}"}
         if cx.chance("p_additional_binding"):
             m["http"]["additional"] = [{"verb": "get", "path": f"{_path_prefix(cx)}/{{name=organizations/*/{res['coll']}/*}}"}]
+            if cx.chance("p_body_only_in_additional"):
+                # a bodiless primary binding (GET) and an additional POST binding WITH a body (search / fetch style APIs)
+                m["http"]["additional"] = [{"verb": "post", "path": f"{_path_prefix(cx)}/{{name=organizations/*/{res['coll']}/*}}:fetch", "body": "*"}]
     if cx.chance("p_signature"):
         m["signatures"] = ["name"]
     if cx.chance("p_routing"):
@@ -413,6 +416,9 @@ def _gen_methods(cx, pkg, main, svc, noun, res, enums, msgs):
         m = {"name": f"List{noun}s", "input": f"{P}.List{noun}sRequest", "output": f"{P}.List{noun}sResponse"}
         if cx.chance("p_http"):
             m["http"] = {"verb": "get", "path": f"{pre}/{{parent={pwild}}}/{coll}"}
+            if cx.chance("p_body_only_in_additional"):
+                # list/search style: GET with everything in the query, or POST with everything in the body
+                m["http"]["additional"] = [{"verb": "post", "path": f"{pre}/{{parent=organizations/*}}/{coll}:search", "body": "*"}]
         if cx.chance("p_signature"):
             m["signatures"] = ["parent"]
         svc["methods"].append(m)
@@ -530,6 +536,9 @@ def _gen_methods(cx, pkg, main, svc, noun, res, enums, msgs):
                     m["http"]["path"] = f"{pre}/{{name={wild}/**}}:{verb.lower()}"
                 if body:
                     m["http"]["body"] = body
+                    if cx.chance("p_body_only_in_additional") and all(f["type"] != "message" and not f.get("map") for f in fields):
+                        # the mirror image: the PRIMARY binding has a body, an additional GET binding has none
+                        m["http"]["additional"] = [{"verb": "get", "path": f"{pre}/{{name=organizations/*/{coll}/*}}:{verb.lower()}"}]
                 elif cx.chance("p_custom_http_pattern"):
                     m["http"].update({"verb": "custom", "kind": rng.choice(["HEAD", "OPTIONS"])})
             if cx.chance("p_signature") and cx.p.get("sig_variants"):
